@@ -58,6 +58,11 @@ PEPGRID = [0.0001, 0.001, 0.01, 0.5, 0.002, "nan"]
 INTGRID = [100.0, 250.5, 1000.0, 31.25, 0.0, 8.0, 64.0]
 
 
+# non-round doubles used as FDR cutoffs (the rows of a filter case carry exactly these values and their neighbours)
+EXACT_CUTOFFS = [1 / 7, 1 / 300, 1 / 150, 1 / 101, 2 / 173, 1 / 3, 2 / 3, 0.0099999999, 0.0100000001, 0.14285714, 0.14285715,
+                 0.1 + 0.2, 1e-7, 1.0000001e-5, 123456.789e-8, 5e-324, 0.049999999999999996]
+
+
 def fenc(x):
     """float -> protocol value"""
     if isinstance(x, float) and math.isnan(x):
@@ -323,12 +328,33 @@ class P(Prop):
 
     def gen_filter(self, rng):
         cutoff = rng.choice([0.01, 0.01, 0.01, 0.05, 0.0, 1.0, "nan", "inf"])
+        # the entry point through which the filter is reached: the function, the tool's own main(argv), or the packaged
+        # caller pipeline.run_filter_fdr_maxquant that builds the tool's argv from a float
+        entry = rng.choice(["function", "function", "main", "pipeline", "pipeline"])
+        if rng.random() < 0.1:
+            # the whole packaged pipeline (percolator input): inference, unfiltered table, then the filter driven with a
+            # cutoff that is (or sits next to) one of the q-values of that very table; the cutoff is picked in run_impl
+            import gen_cli
+
+            db = gen_cli.gen_database(rng, n_prot=rng.randint(5, 12))
+            psms = gen_cli.gen_psms(rng, db, 1)
+            return {"kind": "filter", "entry": "run_all", "cutoff": "pick", "pick": [rng.randint(0, 20), rng.choice(["exact", "exact", "exact", "6g", "up", "down"])],
+                    "pout": gen_cli.percolator_text(psms), "files": [{"name": "proteinGroups.txt", "rows": [], "lt": "\r\n"}]}
+        clean = False
+        if rng.random() < 0.5:
+            clean = rng.random() < 0.7  # a well-formed file: what happens AT the cutoff is not masked by an input error
+            # cutoffs that are q-values as the FDR computation produces them (ratios of small counts) and other doubles
+            # whose shortest decimal form has more than a few digits: the rows of the file sit exactly ON the cutoff
+            cutoff = rng.choice(EXACT_CUTOFFS + [rng.randint(1, 9) / rng.choice([3, 7, 11, 13, 97, 173, 300, 1009])] * 4)
+        nfiles = rng.choice([1, 1, 1, 1, 2, 2, 3, 0])
+        if entry != "function" and nfiles == 0:
+            nfiles = 1  # the command line needs at least one input file
         files = []
-        for fi in range(rng.choice([1, 1, 1, 1, 2, 2, 3, 0])):
+        for fi in range(nfiles):
             extra = rng.choice([0, 1, 3])
             hdr = BASE + ["X%d" % i for i in range(extra)]
             u = rng.random()
-            if u < 0.06:
+            if u < 0.06 and not clean:
                 hdr = [h for h in hdr if h != "Q-value"]
             elif u < 0.3:
                 hdr = hdr[:]
@@ -337,7 +363,7 @@ class P(Prop):
                 hdr = hdr + ["Q-value"]  # a second Q-value column: index() takes the first
             qcol = hdr.index("Q-value") if "Q-value" in hdr else 0
             rows = []
-            for _ in range(rng.choice([0, 1, 2, 3, 4, 6])):
+            for _ in range(rng.choice([0, 1, 2, 3, 4, 6]) + (3 if clean else 0)):
                 row = [self.gen_field(rng) if rng.random() < 0.3 else rng.choice(["P1", "x", "", "1"]) for _ in hdr]
                 c = cutoff if isinstance(cutoff, float) else 0.01
                 qv = rng.choice(
@@ -358,17 +384,19 @@ class P(Prop):
                         "0.01000000000000000000001",
                     ]
                 )
-                if rng.random() < 0.05:
+                if clean:
+                    qv = repr(rng.choice([c, c, c, math.nextafter(c, 2.0), math.nextafter(c, -1.0), 0.0, 1.0] + EXACT_CUTOFFS[:11]))
+                elif rng.random() < 0.05:
                     qv = rng.choice(["", "abc", "0,01"])
                 row[qcol] = qv
-                if rng.random() < 0.015:
+                if rng.random() < 0.015 and not clean:
                     row = row[: rng.randrange(0, len(row))]
                 rows.append(row)
-            if rng.random() < 0.03:
+            if rng.random() < 0.03 and not clean:
                 rows.insert(rng.randrange(0, len(rows) + 1), [])
-            name = rng.choice(["pg.txt", "pg.txt", "pg.txt", "pg.txt", "pg.txt", "a.txt.bak", "pg.tsv"])
-            files.append({"name": "%d_%s" % (fi, name), "rows": [hdr] + rows if rng.random() < 0.97 else [], "lt": rng.choice(["\r\n", "\r\n", "\n", "\r"])})
-        return {"kind": "filter", "cutoff": cutoff, "files": files}
+            name = rng.choice(["pg.txt", "pg.txt", "pg.txt", "pg.txt", "pg.txt", "a.txt.bak", "pg.tsv"]) if not clean else "pg.txt"
+            files.append({"name": "%d_%s" % (fi, name), "rows": [hdr] + rows if (clean or rng.random() < 0.97) else [], "lt": rng.choice(["\r\n", "\r\n", "\n", "\r"])})
+        return {"kind": "filter", "cutoff": cutoff, "files": files, "entry": entry}
 
     def gen_parsemq(self, rng):
         hdr = BASE[:]
@@ -733,11 +761,58 @@ class P(Prop):
             w.writerow(r)
         return s.getvalue()
 
+    @staticmethod
+    def _cutoff(case, impl_out):
+        """the cutoff of a filter case (run_all cases: the one run_impl picked from the unfiltered table)"""
+        if case["cutoff"] == "pick":
+            return fdec(impl_out["_rec"]["cutoff"])
+        return fdec(case["cutoff"])
+
+    def impl_run_all(self, case, d):
+        """pipeline.run_picked_group_fdr_all on Percolator input: writes proteinGroups.txt and the filtered table"""
+        import glob
+
+        from picked_group_fdr.pipeline import pipeline as pipeline_callers
+
+        pout = os.path.join(d, "pout.txt")
+        with open(pout, "w") as fh:
+            fh.write(case["pout"])
+
+        def run(tag, cutoff):
+            od = os.path.join(d, "out_" + tag)
+            shutil.rmtree(od, True)
+            pipeline_callers.run_picked_group_fdr_all([], [pout], [], od, [], "percolator", False, 1, cutoff)
+            unf = os.path.join(od, "proteinGroups.txt")
+            if not os.path.exists(unf):
+                return None, None
+            with open(unf, "rb") as fh:
+                u = fh.read().decode("utf-8")
+            fl = sorted(glob.glob(os.path.join(od, "proteinGroups.fdr*.txt")))
+            t = None
+            if fl:
+                with open(fl[0], "rb") as fh:
+                    t = fh.read().decode("utf-8")
+            return u, t
+
+        u0, _ = run("probe", 0.01)
+        if u0 is None:
+            return {"err": "no_table", "_rec": {"texts": [], "cutoff": fenc(0.01)}}
+        rows = py_rows(u0)
+        qc = rows[0].index("Q-value")
+        qs = sorted({float(r[qc]) for r in rows[1:]}, key=lambda q: (-len(repr(q)), q))  # long decimal forms first
+        k, variant = case["pick"]
+        q = qs[k % len(qs)] if qs else 0.01
+        c = {"exact": q, "6g": float("%.6g" % q), "up": math.nextafter(q, 2.0), "down": math.nextafter(q, -1.0)}[variant]
+        u, t = run("final", c)
+        return {"out": t, "_rec": {"texts": [u], "cutoff": fenc(c), "q_picked": repr(q)}}
+
     def impl_filter(self, case):
         from picked_group_fdr.pipeline import filter_fdr_maxquant as f
 
         d = os.path.join(tmpdir(), "filter_%d" % os.getpid())
         os.makedirs(d, exist_ok=True)
+        if case.get("entry") == "run_all":
+            return self.impl_run_all(case, d)
         paths, texts = [], []
         for fl in case["files"]:
             p = os.path.join(d, fl["name"])
@@ -749,8 +824,16 @@ class P(Prop):
         outp = os.path.join(d, "out.filtered")
         if os.path.exists(outp):
             os.remove(outp)
+        entry = case.get("entry", "function")
         try:
-            f.filterProteinGroupsAtFDR(paths, outp, fdec(case["cutoff"]))
+            if entry == "main":
+                f.main(["--mq_protein_groups", *paths, "--mq_protein_groups_out", outp, "--fdr_cutoff", repr(fdec(case["cutoff"]))])
+            elif entry == "pipeline":
+                from picked_group_fdr.pipeline import pipeline as pipeline_callers
+
+                pipeline_callers.run_filter_fdr_maxquant(paths, outp, fdec(case["cutoff"]))
+            else:
+                f.filterProteinGroupsAtFDR(paths, outp, fdec(case["cutoff"]))
         except (ValueError, IndexError, StopIteration, RuntimeError) as e:
             if isinstance(e, RuntimeError) and isinstance(e.__cause__, StopIteration):
                 e = e.__cause__
@@ -848,7 +931,7 @@ class P(Prop):
                 {
                     "op": "fdrfilter",
                     "files": [[fl["name"], strip_bom(t)] for fl, t in zip(case["files"], texts)],
-                    "cutoff": fenc(fdec(case["cutoff"])),
+                    "cutoff": fenc(self._cutoff(case, impl_out)),
                     "floats": float_table(cells),
                 }
             ]
@@ -1019,11 +1102,13 @@ class P(Prop):
         rows = py_rows(strip_bom(texts[-1]))
         hdr, body = rows[0], rows[1:]
         qc = hdr.index("Q-value")
-        c = fdec(case["cutoff"])
+        c = self._cutoff(case, impl_out)
         want = [hdr] + [r for r in body if float(r[qc]) <= c]
         got = py_rows(impl_out["out"])
         if got != want:
-            return "filtered file is not header + rows with q <= %r in original order: got %d rows, want %d" % (c, len(got) - 1, len(want) - 1)
+            return "filtered file (entry point: %s) is not header + rows with q <= %r in original order: got %d rows, want %d" % (
+                {"function": "filterProteinGroupsAtFDR", "main": "filter_fdr_maxquant.main(argv)", "pipeline": "pipeline.run_filter_fdr_maxquant", "run_all": "pipeline.run_picked_group_fdr_all"}[case.get("entry", "function")],
+                c, len(got) - 1, len(want) - 1)
         return None
 
     # ------------------------------------------------------------------ bookkeeping
@@ -1074,7 +1159,15 @@ class P(Prop):
                 if '"' in impl_out.get("text", ""):
                     f.append("table_has_quoted_field")
         if k == "filter" and isinstance(impl_out, dict) and impl_out.get("out") is not None:
-            c = fdec(case["cutoff"])
+            c = self._cutoff(case, impl_out)
+            if case.get("entry") == "run_all":
+                f.append("filter:run_all:cutoff=" + case["pick"][1])
+                if case["pick"][1] == "exact":
+                    f.append("filter:q_equals_cutoff")
+                if len(impl_out["_rec"].get("q_picked", "")) > 8:
+                    f.append("filter:cutoff_has_more_than_6_digits")
+                    if case["pick"][1] == "exact":
+                        f.append("filter:q_equals_long_cutoff:run_all")
             for fl in case["files"][-1:]:
                 hdr = fl["rows"][0] if fl["rows"] else []
                 if "Q-value" in hdr:
@@ -1086,6 +1179,12 @@ class P(Prop):
                         pass
             if len(case["files"]) > 1:
                 f.append("filter:multi_file")
+        if k == "filter":
+            f.append("filter:entry=" + case.get("entry", "function"))
+            if isinstance(case["cutoff"], float) and len(repr(case["cutoff"])) > 8:
+                f.append("filter:cutoff_has_more_than_6_digits")
+                if "filter:q_equals_cutoff" in f:
+                    f.append("filter:q_equals_long_cutoff:" + case.get("entry", "function"))
         return f
 
     def shrink(self, case):
@@ -1139,6 +1238,10 @@ class P(Prop):
             t = case["text"]
             for i in range(len(t)):
                 yield {"kind": "csvtext", "text": t[:i] + t[i + 1 :]}
+        elif k == "filter" and case.get("entry") == "run_all":
+            lines = case["pout"].splitlines(True)
+            for i in range(1, len(lines)):
+                yield dict(case, pout="".join(lines[:i] + lines[i + 1 :]))
         elif k == "filter":
             files = case["files"]
             for i in range(len(files)):
